@@ -214,11 +214,48 @@ def _minimise(griffe, kind, info, old, new, shapes, mapping, inv):
     return old, new
 
 
+# default values of every expression shape (the two-value alphabet above cannot tell whether a default expression is READ correctly):
+# every ordered pair of shapes for one parameter, positional-or-keyword and keyword-only; a pair of different shapes must be reported as a
+# changed default, shape -> no default as "now required", equal shapes as nothing
+DEFAULT_SHAPES = ["0", "-1", "1 + 2", "'s'", "b's'", "None", "...", "(1, 2)", "[1, 2]", "{1: 2}", "{1}", "int", "int.real", "lambda: 0", "(lambda: 0)()", "not 0", "0 if 0 else 1",
+                  "[x for x in ()]", "{**{}}", "f'{0}'", "f'{0}{1}'", """f"{f'{0}'}" """.strip(), """f"a{f'{0}b'}c" """.strip(), "len('a')", "int(**{})", "1 < 2 < 3", "-(-1)", "(yield_ := 3)"]
+
+
+def _run_default_shapes(griffe, acc):
+    from pathlib import Path as _P
+
+    def mod(kind, d):
+        star = "*, " if kind == "ko" else ""
+        return griffe.visit("m", filepath=_P("m.py"), code=f"def f({star}a{'' if d is None else '=' + d}): ...\n")
+
+    for kind in ("pk", "ko"):
+        mods = {d: mod(kind, d) for d in [None] + DEFAULT_SHAPES}
+        for d, m in mods.items():
+            if d is not None:
+                exec(f"def f(a={d}): ...", {})  # noqa: S102  (every shape is a legal default for CPython)
+                p = m["f"].parameters["a"]
+                if p.default is None or p.required:
+                    acc.violation(f"default-shape/lost/{kind}", f"def f(a={d}): Griffe reads no default (parameter required)", {"default": d, "kind": kind}, None, size=len(d))
+        for d1 in [None] + DEFAULT_SHAPES:
+            for d2 in [None] + DEFAULT_SHAPES:
+                kinds = [b.kind.value for b in griffe.find_breaking_changes(mods[d1], mods[d2])]
+                acc.case({"old_default": d1, "new_default": d2, "kind": kind}, outcome="default-shapes:" + ("reported" if kinds else "silent"), nontrivial=d1 != d2)
+                case = {"old_default": d1, "new_default": d2, "kind": kind}
+                if d1 == d2 and kinds:
+                    acc.violation(f"default-shape/spurious/{kind}", f"identical signatures a={d1}: reported {kinds}", case, None, size=2)
+                elif d1 is not None and d2 is not None and d1 != d2 and "Parameter default was changed" not in kinds:
+                    acc.violation(f"default-shape/unreported-change/{kind}", f"a={d1} -> a={d2}: no 'default was changed' breakage ({kinds})", case, None, size=len(d1) + len(d2))
+                elif d1 is not None and d2 is None and "Parameter is now required" not in kinds:
+                    acc.violation(f"default-shape/unreported-required/{kind}", f"a={d1} -> a: no 'now required' breakage ({kinds})", case, None, size=len(d1))
+
+
 def run_shard(shard, tier):
     griffe, sigs, shapes, masks, mods, mapping = _prepare(tier)
     inv = {v: k for k, v in mapping.items()}
     acc = Acc()
     seen_min: dict = {}
+    if shard == 0:
+        _run_default_shapes(griffe, acc)
     for i in range(shard, len(sigs), NSHARDS):
         old = sigs[i]
         for j, new in enumerate(sigs):
